@@ -303,6 +303,71 @@ def _labels_tr(case):
             "Dx>Dy" if case["Dx"] > case["Dy"] else "Dx<=Dy"]
 
 
+# ------------------------------------------------------------------------------------------ approximate conditionals
+def _pool_ap(tier):
+    # (Dx, Dy, Dk, Da_extra)
+    base = [(1, 1, 1, 0), (2, 2, 2, 0), (1, 2, 2, 1), (2, 1, 1, 0), (3, 2, 1, 0), (2, 2, 1, 1)]
+    if tier == "thorough":
+        base += [(3, 1, 1, 1), (1, 3, 2, 0), (2, 3, 3, 0), (3, 3, 2, 0)]
+    return base
+
+
+def _strategy_ap(shapes):
+    @st.composite
+    def s(draw):
+        Dx, Dy, Dk, dA = draw(st.sampled_from(shapes))
+        akind = draw(st.sampled_from(gen.FEATURE_KINDS + gen.HET_KINDS))
+        route = draw(st.sampled_from(_TROUTES))
+        het = akind in gen.HET_KINDS
+        Da = max(Dy, Dk) + dA if het else 0
+        if het:
+            ap = draw(gen.het_params(akind, Dx, Dy, max(Da, Dy, Dk), Dk, wscale=draw(st.sampled_from([0.3, 1.0]))))
+        else:
+            ap = draw(gen.feature_params(akind, Dx, Dy, Dk))
+        return {"Dx": Dx, "Dy": Dy, "Dk": Dk, "akind": akind, "route": route, "ap": ap,
+                "px": {"Sigma": draw(gen.spd(1, Dx, kappa=6.0, lam_lo=0.2, lam_hi=0.5)), "mu": draw(gen.arr((1, Dx), -1.5, 1.5))},
+                "x": draw(gen.arr((2, Dx), -2, 2)), "y": draw(gen.arr((2, Dy), -2, 2))}
+    return s()
+
+
+def _run_ap(case):
+    from .. import libx, dens
+    from ..libx import J
+
+    fails = []
+    het = case["akind"] in gen.HET_KINDS
+    Dx, Dy = case["Dx"], case["Dy"]
+    ok, c = lib(fails, "construct_approx", (libx.make_het if het else libx.make_feature), case["ap"])
+    ok2, px = lib(fails, "construct_px", libx.make_measure, "pdf", case["px"])
+    if not (ok and ok2):
+        return fails
+    route = case["route"]
+    tag = f"{route}[{'het' if het else case['akind']}]"
+    if route == "cond_x":
+        ok, d = lib(fails, tag, lambda: c(J(case["x"])))
+        Dd = Dy
+    elif route == "joint":
+        ok, d = lib(fails, tag, lambda: c.affine_joint_transformation(px))
+        Dd = Dx + Dy
+    elif route == "marginal":
+        ok, d = lib(fails, tag, lambda: c.affine_marginal_transformation(px))
+        Dd = Dy
+    else:
+        ok, cc = lib(fails, tag, lambda: c.affine_conditional_transformation(px))
+        if ok:
+            ok, d = lib(fails, tag + "(y)", lambda: cc(J(case["y"])))
+        Dd = Dx
+    if not ok:
+        return fails
+    f2 = []
+    dens.check_density(f2, tag, d, Dd)
+    if het and route == "cond_x" and case["ap"]["Da"] > case["ap"]["Dy"]:
+        for f in f2:
+            f["kf_het_da"] = True  # listed finding: p(y|x) of a heteroscedastic conditional with Da > Dy is not normalised
+    fails.extend(f2)
+    return fails
+
+
 SUBS = [
     Sub("measure_mass", _pool_mass, _strategy_mass, _run_mass, _nontrivial_mass, _labels_mass,
         examples={"quick": 70, "thorough": 500}, shards={"quick": 8, "thorough": 16}, rule="D>=2"),
@@ -310,4 +375,7 @@ SUBS = [
         examples={"quick": 100, "thorough": 600}, shards={"quick": 6, "thorough": 12}, rule="D>=2 and (R>=2 or non-constructor route)"),
     Sub("transformations", _pool_tr, _strategy_tr, _run_tr, _nontrivial_tr, _labels_tr,
         examples={"quick": 80, "thorough": 500}, shards={"quick": 8, "thorough": 16}, rule="Rc*Rx>=2 or (Dx>=2 and Dy>=2)"),
+    Sub("approx_routes", _pool_ap, _strategy_ap, _run_ap, lambda c: c["Dx"] + c["Dy"] >= 3,
+        lambda c: [f"akind={c['akind']}", f"route={c['route']}"],
+        examples={"quick": 50, "thorough": 300}, shards={"quick": 6, "thorough": 10}, rule="Dx+Dy>=3"),
 ]
